@@ -662,9 +662,40 @@ class _Canon(ast.NodeTransformer):
         finally:
             if stack:
                 stack[-1] = (stack[-1][0], stack[-1][1], stack[-1][2] - 1)
+        # annotated locals: inside a function `x: T = v` is the assignment `x = v` (the annotation of a local is never evaluated) and
+        # a bare `x: T` binds nothing.  (Class bodies keep their annotations: they declare dataclass / NamedTuple fields.)
+        self._plain_annotated_locals(n)
         from .normalize import normalize_function
         cname, ctables = (stack[-1][0], stack[-1][1]) if stack and stack[-1][2] == 0 else (None, None)
         return normalize_function(n, getattr(self, "_module_tables", None), ctables, cname)
+
+    @staticmethod
+    def _plain_annotated_locals(func):
+        def block(stmts):
+            out = []
+            for st in stmts:
+                if isinstance(st, (ast.FunctionDef, ast.AsyncFunctionDef, ast.ClassDef)):
+                    out.append(st)
+                    continue
+                for fld in ("body", "orelse", "finalbody"):
+                    b = getattr(st, fld, None)
+                    if isinstance(b, list) and b and isinstance(b[0], ast.stmt):
+                        setattr(st, fld, block(b) or [ast.copy_location(ast.Pass(), st)])
+                for h in getattr(st, "handlers", []) or []:
+                    h.body = block(h.body) or [ast.copy_location(ast.Pass(), st)]
+                for c in getattr(st, "cases", []) or []:
+                    c.body = block(c.body) or [ast.copy_location(ast.Pass(), st)]
+                if isinstance(st, ast.AnnAssign):
+                    if st.value is None:
+                        continue
+                    tg = st.target
+                    tg.ctx = ast.Store()
+                    out.append(ast.copy_location(ast.Assign(targets=[tg], value=st.value), st))
+                    continue
+                out.append(st)
+            return out
+        func.body = block(func.body) or [ast.copy_location(ast.Pass(), func)]
+        ast.fix_missing_locations(func)
 
     def visit_Assign(self, n):
         # `x = x + 1` / `x = 1 + x` / `x = x - 1` on a plain name with a numeric literal -> `x += 1` / `x -= 1` (numbers are immutable:
